@@ -22,7 +22,7 @@ func init() {
 		Real:           []string{"glow codecs and secp256k1", "server report handler (parse, verify, window checks, integrate, persist)", "server HTTP handlers (stats, recent reports)", "TCP sync handler", "background loops", "real files on tmpfs"},
 		Stub:           []string{"UDP socket read loop (modelled: leading 80 bytes of datagrams >= 80 bytes)", "HTTP/TCP accept loops"},
 		Assumptions:    []string{"fresh ids always carry fresh keys"},
-		RequiredProbes: []string{"c02.equivocation", "c02.over-capacity", "c02.replay", "c02.resigned", "c02.negative"},
+		RequiredProbes: []string{"c02.equivocation", "c02.over-capacity", "c02.replay", "c02.resigned", "c02.negative", "c02.late-restart"},
 		RequiredSites:  []string{"report.after-write", "report.before-write"},
 	})
 }
@@ -124,6 +124,25 @@ func runC02(m *Sim) {
 		if fmt.Sprint(slotValues(s1.Reports[d.ID])) != fmt.Sprint(slotValues(s2.Reports[d.ID])) {
 			m.Fail("C02.order", "permuted", "device %d: published values differ between two delivery orders of the same multiset", d.ID)
 		}
+	}
+	// The published values are a function of the reports received - also after
+	// days have passed and the server was restarted (no rotation in between).
+	if jump := uint32([]int{0, 433, 600, 1000}[m.C.Int("late-restart-jump", 4)]); m.C.Chance("late-restart", 1, 3) && Slot()+jump <= 3100 {
+		SetSlot(Slot() + jump)
+		n.Stop()
+		if err := n.Start(); err != nil {
+			m.Fail("C02.start", "late-restart", "server does not restart: %v", err)
+		}
+		s3 := n.Snap()
+		if s3.Offset != s1.Offset {
+			panic("harness: C02 late restart rotated the window")
+		}
+		for _, d := range devs {
+			if a, b := fmt.Sprint(slotValues(s1.Reports[d.ID])), fmt.Sprint(slotValues(s3.Reports[d.ID])); a != b {
+				m.Fail("C02.machine", "late-restart", "device %d: published values changed over a restart %d slots later: %s became %s", d.ID, jump, a, b)
+			}
+		}
+		m.Probe("c02.late-restart")
 	}
 }
 
